@@ -85,6 +85,25 @@ theorem aztec_layout_inv (compact : Bool) (layers : Nat) (stream mode : List Boo
     extractBits (layout compact layers stream mode) layers compact = .ok stream :=
   AztecLayout.extract_layout compact layers stream mode (layoutOK_all compact layers h) hlen
 
+/-- the reference encoder and the decoder agree on the geometry parameters of every size: symbol
+    dimension (what `extractBits` expects of the sampled grid), data-region capacity, codeword size -/
+theorem size_agrees (compact : Bool) (layers : Nat) (h : ValidSize compact layers) :
+    symbolSize compact layers = matrixSize layers compact ∧
+    totalBits compact layers = totalBitsInLayer layers compact ∧
+    wordSize layers = codewordSize layers := by
+  refine ⟨?_, rfl, rfl⟩
+  obtain ⟨h1, h2⟩ := h
+  cases compact with
+  | true =>
+    simp only [if_true] at h2
+    have : layers = 1 ∨ layers = 2 ∨ layers = 3 ∨ layers = 4 := by omega
+    rcases this with rfl | rfl | rfl | rfl <;> decide
+  | false =>
+    simp only [Bool.false_eq_true, if_false] at h2
+    unfold symbolSize matrixSize baseMatrixSize halfBase
+    simp only [Bool.false_eq_true, if_false]
+    omega
+
 /-- **Bit stuffing** (clause "bit-stuffed ... codewords"): for every bit string and every codeword
     size b ≥ 2 (in particular 6, 8, 10, 12), the decoder's un-stuffing of the reference encoder's
     stuffed codewords succeeds (no all-zero / all-one codeword) and returns the bits followed by
